@@ -58,6 +58,8 @@ def setup_slot(k):
     if not os.path.exists(r):
         run("git -C /repo worktree add --detach %s HEAD" % r, "/")
     run("git checkout -q -- . && git clean -fdq src tests", r)
+    if os.path.exists("/repo/Cargo.lock") and not os.path.exists(os.path.join(r, "Cargo.lock")):
+        shutil.copy("/repo/Cargo.lock", r)
     run("sed -i 's#path = \"/repo\"#path = \"%s\"#' harness/Cargo.toml" % r, v)
     return v, r
 
